@@ -3,7 +3,8 @@ import FlVerif.Spec.Antecedent
 
 /-! # `Antecedent.activation_degree` and `Rule.activate_with` (rule.py), `Aggregated.activation_degree` (term.py)
 
-Recursive evaluation of the loaded tree, statement by statement: a disabled variable returns 0 before anything else;
+Recursive evaluation of the loaded tree, statement by statement: a variable object that is false (it has lost its terms since
+the rule was loaded: `Variable.__len__`) raises `ValueError` before anything else; a disabled variable returns 0;
 a proposition whose last hedge is `any` starts from NaN and applies the hedges in reverse; otherwise the term's
 membership of the input value / the aggregated activation degree of the term for an output variable, then the hedges
 in reverse (from the one nearest the term outwards); `and` / `or` use the rule block's operators and raise
@@ -20,7 +21,8 @@ def hedgesReversed (c : DegCtx α) (hs : List String) (x : X α) : X α :=
 
 def degree (c : DegCtx α) : ANode → Except ErrKind (X α)
   | .prop v hs t =>
-    if !c.enabled v then .ok (.fin 0)
+    if !c.hasTerms v then .error .value                        -- `if not node.variable`: `Variable.__len__` is 0
+    else if !c.enabled v then .ok (.fin 0)
     else if hs.getLast? = some "any" then .ok (hedgesReversed c hs .nan)
     else match t with
       | none => .error .value                                  -- expected a term in proposition
